@@ -270,7 +270,9 @@ def run_case(case):
     cov = {'type_x_policy': {}, 'bad_position': {}, 'form': {form: 1}}
     viol = []
     policy = rng.choice(POLICIES)
-    res_names = rng.sample(['r1', 'r2'], rng.choice([1, 2]))
+    # a third of the pools hold a name that is a proper prefix of its sibling: a string selects the names it FULLY matches
+    pool = boot.rng(case['seed'], 'C14', 'respool', case['idx']).choice([['r1', 'r2'], ['r1', 'r2'], ['r1', 'r1x']])
+    res_names = rng.sample(pool, rng.choice([1, 2]))
     target_res = rng.choice(res_names)
     selector = rng.choice([target_res, [target_res], res_names.index(target_res)])
     selected = [target_res]
@@ -279,7 +281,7 @@ def run_case(case):
         selector = rng.choice([selector, None, -1])
     elif rng.random() < 0.3:
         # the step works on BOTH resources (same field names): each must be handled on its own
-        selector = rng.choice([None, list(res_names), 'r.'])
+        selector = rng.choice([None, list(res_names), 'r.' if 'r2' in pool else 'r1x?'])
         selected = list(res_names)
     elif form == 'set_type' and rng.random() < 0.15:
         # resources omitted: set_type documents "by default the last resource"
